@@ -124,6 +124,7 @@ package service
 //@   callsite PackInPlace: dyntype(downlink.serverConnPacker, direct.Socks5PacketServerPacker) ==> payloadStart >= 3 + socks5.LengthOfAddrFromAddrPort(payloadSourceAddrPort)
 //@   callsite PackInPlace: dyntype(downlink.serverConnPacker, *ss2022.ShadowPacketServerPacker) ==> payloadStart >= 16 + 19 + socks5.LengthOfAddrFromAddrPort(payloadSourceAddrPort)
 //@   callsite WriteMsgUDPAddrPort: arg3 == downlink.clientAddrPort
+//@   callsite CollectUDPSessionDownlink: arg0 == "" && arg1 == packetsSent && arg2 == payloadBytesSent
 
 // The same for a session-keyed (Shadowsocks 2022) relay (that the reply address is the latest one published
 // through the atomic pointer is a statement about another goroutine's stores and is not covered).
@@ -138,6 +139,7 @@ package service
 //@   callsite PackInPlace: dyntype(downlink.serverConnPacker, direct.Socks5PacketServerPacker) ==> payloadStart >= 3 + socks5.LengthOfAddrFromAddrPort(payloadSourceAddrPort)
 //@   callsite PackInPlace: dyntype(downlink.serverConnPacker, *ss2022.ShadowPacketServerPacker) ==> payloadStart >= 16 + 19 + socks5.LengthOfAddrFromAddrPort(payloadSourceAddrPort)
 //@   callsite WriteMsgUDPAddrPort: arg3 == clientAddrPort
+//@   callsite CollectUDPSessionDownlink: arg0 == downlink.username && arg1 == packetsSent && arg2 == payloadBytesSent
 
 // ---------------------------------------------------------------------------
 // TCP relay (property C13): one accepted connection, sequentially. Routing is asked with the requested
